@@ -745,10 +745,12 @@ Interpolation Perform_KDE(std::vector<DataPoint> data, double xMin, double xMax,
 			Variance += data[i].weight * pow(data[i].value - Average, 2.0) / Weight_Sum;
 		// 1.3 Bandwidth with rule-of-thumb estimator
 		bw = sqrt(Variance) * pow(4.0 / 3.0 / N_Data, 0.2);
-		// A sample without spread (one point, identical points, all the weight on one point) has no rule-of-thumb bandwidth:
-		// smooth it over one spacing of the table instead of dividing by zero below.
-		if(!(bw > 0.0))
-			bw = (xMax - xMin) / 149.0;
+		// A sample without spread (one point, identical points, all the weight on one point) has no rule-of-thumb bandwidth, and
+		// rounding of the weighted mean can leave a spurious spread of the order of 1e-16: a bandwidth that the 150-point table can
+		// not resolve (below 1/64 of its spacing every tabulated value underflows to zero) is replaced by one spacing of the table.
+		double spacing = (xMax - xMin) / 149.0;
+		if(!(bw > spacing / 64.0))
+			bw = spacing;
 	}
 
 	// Sort data:
